@@ -152,11 +152,11 @@ def run_extremes(d, res):
         vals = list(range(-(1 << w) - 1, (1 << w) + 2))
     desc0 = {'family': 'extremes', 'w': w, 'boundary': bool(d.get('boundary'))}
 
-    def run(kind, v, build):
+    def run(kind, v, build, post=None):
         desc = dict(desc0, kind=kind, value=v)
         try:
             hw = py4hw.HWSystem()
-            build(hw)
+            built = build(hw)
             wires = core.all_wires(hw)
             wf = py4hw.Waveform(hw, 'wvf', [x for x in wires])
             sim = hw.getSimulator()
@@ -167,6 +167,8 @@ def run_extremes(d, res):
         lst = Listener(wires)
         sim.addListener(lst)
         where = None
+        if post:
+            post(built)
         b = bad_wires(wires)
         if b:
             where = 'after_simulator_creation'
@@ -195,6 +197,9 @@ def run_extremes(d, res):
     for v in vals:
         run('Constant', v, lambda hw: py4hw.Constant(hw, 'k', v, hw.wire('r', w)))
         run('Sequence', v, lambda hw: py4hw.Sequence(hw, 's', [v, 0, v], hw.wire('r', w)))
+        # the test-bench idiom of the repository: a Constant built with a placeholder whose value attribute is set afterwards
+        run('Constant.value_reassigned', v, lambda hw: py4hw.Constant(hw, 'k', 0, hw.wire('r', w)), post=lambda k: setattr(k, 'value', v))
+        run('Constant.value_reassigned_from_max', v, lambda hw: py4hw.Constant(hw, 'k', (1 << w) - 1, hw.wire('r', w)), post=lambda k: setattr(k, 'value', v))
         run('Reg.reset_value', v, lambda hw: py4hw.Reg(hw, 'r', hw.wire('d', w), hw.wire('q', w), reset=hw.wire('rst'), reset_value=v))
         run('put_in_propagate', v, lambda hw: PutBlock(hw, 'p', hw.wire('r', w), v, False))
         run('prepare_in_clock', v, lambda hw: PutBlock(hw, 'p', hw.wire('r', w), v, True))
